@@ -3563,3 +3563,29 @@ Q(name="e2_quinn_forward_app_events_wakeups", props=["C11"], crate="quinn", func
   functions=["quinn::connection::State::forward_app_events (one iteration of its loop over the protocol events)"], pre=lambda c: "true", post=qfe_post,
   bounds="one iteration of the loop from an arbitrary state, every event the protocol layer can report: Writable wakes the writer blocked on that stream, Readable the reader, Finished those waiting in stopped(), and Stopped BOTH those waiting in stopped() and a writer blocked on the stream - no credit will ever arrive for it, the STOP_SENDING is the only thing that can end its wait",
   replay=("quinn-test:stopped_wakes_blocked_writer", lambda m: [dict()]))
+
+
+# ------------------------------------------------------------------ C11: a reset reported by a read is remembered by the handle (received_reset agrees with it afterwards)
+def qrr_post(c, p):
+    st = p.p.state
+    if p.p.outcome != "return":
+        return "true"
+    rf = [x for x in st.calls if re.search(r"call_mut$", x[0])]
+    if len(rf) != 1:
+        return "true"             # the read function was not asked: nothing new was learnt in this call
+    k = rf[0][2]
+    RS = c.ex.enums["ReadStatus"]
+    PRE = _proto_enum("ReadError")
+    failed = eq(c.ex.read_key(st, k + "#discr", I64).t, bv(RS.index("Failed")))
+    is_reset = eq(c.ex.read_key(st, k + "@Failed.1#discr", I64).t, bv(PRE.index("Reset")))
+    code = c.ex.read_key(st, k + "@Failed.1@Reset.0.0", BV64).t
+    f = "*_1.%d" % c.field("recv_stream.rs", "RecvStream", "reset", crate="quinn")
+    kept = and_(eq(c.ex.read_key(st, f + "#discr", I64).t, bv(1)), eq(c.ex.read_key(st, f + "@Some.0.0", BV64).t, code))
+    return or_(not_(and_(failed, is_reset)), kept)
+
+
+Q(name="e2_quinn_read_reset_remembered", props=["C11"], crate="quinn", func=r"recv_stream\.rs:\d+:1: \d+:16>::poll_read_generic$",
+  allowed_panics=r".", ignore_untranslatable=r".",
+  functions=["quinn::RecvStream::poll_read_generic (generic over the read function; the MIR before monomorphisation)"], pre=lambda c: "true", post=qrr_post,
+  bounds="every state of the handle, every status the read function can report: whenever it reports that the stream was reset (with or without data read in the same call), the handle has recorded Some(code) when the call returns - the protocol layer frees the stream once the reset was read, so the handle is the only place that still knows how the receiving half ended, and RecvStream::received_reset answers from it",
+  replay=("quinn-test:reset_seen_by_read_is_remembered", lambda m: [dict()]))
